@@ -138,12 +138,17 @@ pub fn make_rig(sc: &Value) -> (Rig, UistBroker<HClient>) {
     let id = 0u64;
     let yields = sc.get("yields").and_then(|x| x.as_u64()).unwrap_or(0) as u32;
     let client = HClient { state: state.clone(), log: log.clone(), lazy, yields };
-    let brkr = block_on(
-        UistBrokerBuilder::new()
-            .with_client(client, id)
-            .with_trade_costs(costs_of(&sc["costs"]))
-            .build(),
-    );
+    // one configured builder may serve several brokers (two backtests sharing one cost configuration): when the
+    // scenario says so, the broker under test is the SECOND one built from the builder
+    let mut builder = UistBrokerBuilder::new();
+    builder.with_trade_costs(costs_of(&sc["costs"]));
+    if sc.get("builder_reuse").and_then(|x| x.as_bool()).unwrap_or(false) {
+        let other: Shared = Rc::new(RefCell::new(AppState::single("D", dataset_of(&sc["dataset"]))));
+        let other_log: Log = Rc::new(RefCell::new(Vec::new()));
+        let first = HClient { state: other, log: other_log, lazy: false, yields: 0 };
+        let _first_broker = block_on(builder.with_client(first, id).build());
+    }
+    let brkr = block_on(builder.with_client(client, id).build());
     log.borrow_mut().clear();
     (Rig { state, log, id, syms }, brkr)
 }
